@@ -155,6 +155,7 @@ type spHarness struct {
 	tags      []string
 	peers     []string
 	removed   map[uint32]bool
+	defaultQueues bool
 }
 
 func (h *spHarness) Init(a *app.App) error { return nil }
@@ -166,6 +167,9 @@ func (h *spHarness) newStream(peerId string) *spStream {
 	st := &spStream{h: h, n: len(h.streams) + 1, peerId: peerId}
 	st.ctx, st.cancel = context.WithCancel(peer.CtxWithPeerId(context.Background(), peerId))
 	st.queue = 1 + s.Choose("queue", h.maxQueue)
+	if h.defaultQueues && s.Flip("default-queue", 0.3) {
+		st.queue = 0 // the pool's default bound applies
+	}
 	for _, t := range h.tags {
 		if s.Flip("tag", 0.4) {
 			st.tags = append(st.tags, t)
@@ -274,7 +278,11 @@ func (h *spHarness) checkPool(when string) {
 		if s.poolId == 0 {
 			continue
 		}
-		if n, ok := st.QueueLen[s.poolId]; ok && n > s.queue {
+		if n, ok := st.QueueLen[s.poolId]; ok && s.queue == 0 {
+			if n >= burstSize {
+				h.r.Fail("queue-over-limit", "default-unbounded", "(%s) %s (default queue size) buffers all %d messages of a burst: the buffer is not bounded", when, s.name(), n)
+			}
+		} else if ok && n > s.queue {
 			h.r.Fail("queue-over-limit", "", "(%s) %s buffers %d messages, its configured queue size is %d", when, s.name(), n, s.queue)
 		}
 	}
@@ -285,6 +293,8 @@ func (h *spHarness) checkPool(when string) {
 		}
 	}
 }
+
+const burstSize = 300
 
 func contains(l []string, x string) bool {
 	for _, y := range l {
@@ -307,11 +317,24 @@ func runC19(r *core.Run) {
 	for i := 0; i < npeers; i++ {
 		h.peers = append(h.peers, fmt.Sprintf("P%d", i))
 	}
-	cfg := streampool.StreamConfig{SendQueueSize: 10, DialQueueWorkers: 1 + s.Choose("workers", 3), DialQueueSize: 1 + s.Choose("dialq", 4)}
+	h.defaultQueues = s.Flip("default-queues", 0.3)
+	sendQ := 10
+	if h.defaultQueues && s.Flip("zero-config-queue", 0.5) {
+		sendQ = 0
+	}
+	cfg := streampool.StreamConfig{SendQueueSize: sendQ, DialQueueWorkers: 1 + s.Choose("workers", 3), DialQueueSize: 1 + s.Choose("dialq", 4)}
 	removedIds := map[uint32]bool{}
 	h.removed = removedIds
 	h.pool = streampool.NewStreamPool(h, cfg, streampool.WithStreamCloseHook(func(id uint32, peerId string, tags []string) {
 		removedIds[id] = true
+		// the hook is documented to run outside the pool lock: a slow hook (or one that calls back into
+		// the pool) must not stall sends to other peers. Only one goroutine runs at a time here and parked
+		// goroutines hold no lock, so a busy lock is held by the caller of this hook.
+		if !h.pool.(interface{ VerifPoolLockFree() bool }).VerifPoolLockFree() {
+			r.FailNoPanic("close-hook-under-pool-lock", "", "the stream close hook for stream %d (peer %s) runs while the pool lock is held: the end of one peer's stream stalls every Send/Broadcast until the hook returns", id, peerId)
+			return
+		}
+		_ = h.pool.Streams(tags...) // re-entrant use of the pool from the hook
 	}))
 	sch.Off = true
 	must(h.pool.Run(context.Background()))
@@ -334,7 +357,11 @@ func runC19(r *core.Run) {
 		}
 		var ops []op
 		for k := 0; k < opsPer; k++ {
-			o := op{kind: s.Weighted("op", []int{4, 4, 5, 3, 1})}
+			wBurst := 0
+			if h.defaultQueues {
+				wBurst = 2
+			}
+			o := op{kind: s.Weighted("op", []int{4, 4, 5, 3, 1, wBurst})}
 			for _, p := range h.peers {
 				if s.Flip("op-peer", 0.4) {
 					o.peers = append(o.peers, p)
@@ -394,6 +421,12 @@ func runC19(r *core.Run) {
 					inCall[name] = "AddStream"
 					err = h.pool.AddStream(st, st.queue, st.tags...)
 					r.Event("call-addstream", "%s %s peer=%s queue=%d tags=%v blocked=%v failAt=%d: %v", call, st.name(), st.peerId, st.queue, st.tags, st.blocked, st.failAt, err)
+				case 5: // a burst at every tagged stream (a stuck peer's buffer must stay bounded)
+					inCall[name] = "Broadcast"
+					for b := 0; b < burstSize; b++ {
+						err = h.pool.Broadcast(context.Background(), &spMsg{h: h, id: 100000 + m.id*1000 + b}, h.tags...)
+					}
+					r.Event("call-burst", "%s %d broadcasts to tags %v", call, burstSize, h.tags)
 				case 4: // remove tags out of band
 					st := h.state()
 					if len(st.Streams) > 0 {
@@ -451,7 +484,7 @@ func runC19(r *core.Run) {
 		}
 		return out
 	}
-	for n := 0; n < 3000 && !r.Aborted(); n++ {
+	for n := 0; n < 200000 && !r.Aborted(); n++ {
 		names := runnable()
 		if len(names) == 0 {
 			break
@@ -477,7 +510,7 @@ func runC19(r *core.Run) {
 		return
 	}
 	// faults stop: every healthy stream drains what it accepted (a blocked peer delays nobody)
-	for n := 0; n < 3000 && !r.Aborted(); n++ {
+	for n := 0; n < 200000 && !r.Aborted(); n++ {
 		var act []string
 		for _, nm := range runnable() {
 			if pt, _ := sch.ParkedPoint(nm); strings.HasPrefix(pt, "recv:") {
@@ -501,7 +534,7 @@ func runC19(r *core.Run) {
 	}
 	// teardown: remotes close, blocked writes fail; every index must end up empty
 	h.teardown = true
-	for n := 0; n < 3000 && !r.Aborted(); n++ {
+	for n := 0; n < 200000 && !r.Aborted(); n++ {
 		names := sch.Parked()
 		if len(names) == 0 {
 			break
